@@ -269,6 +269,49 @@ def harnesses(tier):
 
 # ---- frame clauses (syntactic back end) ---------------------------------------------------------
 
+KNOWN_PROCESS_STATE = {'tally.expr_parser._expression_cache', 'tally.expr_parser._regex_cache',
+                       'tally.merchant_utils._cached_engine', 'tally.merchant_utils._cached_engine_path'}
+MUTATORS = {'add', 'append', 'extend', 'update', 'setdefault', 'pop', 'popitem', 'clear', 'insert', 'remove', 'discard', '__setitem__'}
+
+
+def _process_wide_state_clause():
+    """the modules on the classification path keep process-wide state in exactly the caches that have a representation invariant above: any other
+    module-level name that a function writes (rebinds through `global`, stores into, or calls a mutating method on) is state that can carry one
+    classification into the next and needs an invariant of its own"""
+    written = set()
+    for mname in ('tally.expr_parser', 'tally.merchant_engine', 'tally.merchant_utils', 'tally.modifier_parser', 'tally.classification', 'tally.section_engine'):
+        mod = extract.module(mname)
+        module_names = set()
+        for st in mod.tree.body:
+            if isinstance(st, (ast.Assign, ast.AnnAssign)):
+                for t in (st.targets if isinstance(st, ast.Assign) else [st.target]):
+                    if isinstance(t, ast.Name):
+                        module_names.add(t.id)
+        for fn in ast.walk(mod.tree):
+            if not isinstance(fn, (ast.FunctionDef, ast.AsyncFunctionDef)):
+                continue
+            params = {a.arg for a in fn.args.posonlyargs + fn.args.args + fn.args.kwonlyargs}
+            local = {n.id for n in ast.walk(fn) if isinstance(n, ast.Name) and isinstance(n.ctx, ast.Store)} | params
+            declared_global = {g for n in ast.walk(fn) if isinstance(n, ast.Global) for g in n.names}
+            for n in ast.walk(fn):
+                if isinstance(n, ast.Global):
+                    written |= {mname + '.' + g for g in n.names}
+                tgt = None
+                if isinstance(n, (ast.Assign, ast.AugAssign, ast.Delete)):
+                    for t in (n.targets if isinstance(n, (ast.Assign, ast.Delete)) else [n.target]):
+                        if isinstance(t, ast.Subscript) and isinstance(t.value, ast.Name):
+                            tgt = t.value.id
+                elif isinstance(n, ast.Call) and isinstance(n.func, ast.Attribute) and n.func.attr in MUTATORS and isinstance(n.func.value, ast.Name):
+                    tgt = n.func.value.id
+                if tgt and tgt in module_names and (tgt not in local or tgt in declared_global):
+                    written.add(mname + '.' + tgt)
+    extra = sorted(written - KNOWN_PROCESS_STATE)
+    return frames.Clause('classification_modules#process_wide_state_is_the_known_caches', not extra,
+                         'module-level names written by functions: %s' % sorted(written) if not extra else
+                         'process-wide state without a cache invariant: %s' % extra, kind='auxiliary')
+
+
+
 def structural(tier, res):
     out = []
     fresh = {'MatchResult', 'MerchantRule', 'ParsedPattern', 'TransactionContext', 'TransactionEvaluator', 'ExpressionContext',
@@ -308,6 +351,8 @@ def structural(tier, res):
     for n in mod.classes['ExpressionContext'].body:
         if isinstance(n, ast.FunctionDef) and n.name not in ('__init__',):
             add(EP + 'ExpressionContext.' + n.name, [])
+    add(ME + 'calculate_specificity', [])
+    out.append(_process_wide_state_clause())
     # per-instance evaluator state; the only caches are the two module dictionaries
     out.extend(frames.check_instance_state_fresh(mod.classes['TransactionEvaluator'], 'tally.expr_parser', ['_scope', 'ctx'], fresh=['_scope']))
     out.extend(frames.check_instance_state_fresh(mod.classes['ExpressionEvaluator'], 'tally.expr_parser', ['ctx']))
